@@ -414,6 +414,24 @@ class ParsersWorld:
             if ro.random() < 0.4:
                 runs.append(workload.pick_run_kwargs(ro, self.modes, it["run"]))
             task = {"tid": t, "ddl": it["ddl"], "flags": flags, "runs": runs, "src": it["src"]}
+            if ro.random() < 0.2:
+                # a second object built and run later in the same thread
+                c2 = ro.random()
+                if c2 < 0.35:
+                    f2 = dict(flags)
+                    if f2.get("silent", True) is False:
+                        f2.pop("silent")
+                    else:
+                        f2["silent"] = False
+                    it2 = {"ddl": it["ddl"], "flags": f2, "src": "same"}
+                elif c2 < 0.6 and workload.tables_of(it["ddl"]):
+                    d2, _shape = workload.gen_followup(ro, workload.tables_of(it["ddl"]))
+                    it2 = {"ddl": d2, "flags": dict(flags), "src": "followup"}
+                else:
+                    x = workload.pick_item(rw, swarm["p_corpus"], max_len=swarm["max_len"])
+                    it2 = {"ddl": x["ddl"], "flags": dict(x["flags"]), "src": x["src"]}
+                it2["runs"] = [workload.pick_run_kwargs(ro, self.modes, {})]
+                task["then"] = [it2]
             if swarm["cancel_arm"] and t == 0:
                 task["cancel"] = {"run": 0, "stmt": rf.choice([1, 1, 2, 3])}
                 if len(runs) == 1:
@@ -459,7 +477,7 @@ class ParsersWorld:
                             trace_prefixes=self.trace_prefixes if gran == "L" else None,
                             trace_exclude=("parsetab.py",))
         st = {"violations": [], "stats": {"tasks": len(trace["tasks"]), "runs": 0, "refs": 0, "cancel_fired": 0,
-                                           "exc_outcomes": 0, "ctor_during_other_run": 0},
+                                           "exc_outcomes": 0, "ctor_during_other_run": 0, "then_objects_runs": 0},
               "kinds": []}
         outcomes = []     # (tid, run index, outcome)
         running = {"n": 0}
@@ -481,35 +499,40 @@ class ParsersWorld:
 
         def make_body(i, spec):
             def body(task):
-                try:
-                    p = self.DDLParser(spec["ddl"], **spec["flags"])
-                except Exception as e:  # noqa
-                    p = None
-                    outcomes.append((i, -1, ["ctor-exc"] + core.outcome_of_exception(e)[1:]))
-                for j, kw in enumerate(spec["runs"]):
-                    S.yield_point("between")
-                    if p is None:
-                        break
-                    c = spec.get("cancel")
-                    task.stmt_n = 0
-                    task.cancel_stmt = c["stmt"] if (c and c.get("run") == j) else None
-                    S.yield_point("run_entry")
-                    running["n"] += 1
+                # a task owns one parser object, optionally followed by further objects built and run in the
+                # same thread ("then"): object index oi, run index j (-1 = the constructor raised)
+                for oi, ospec in enumerate([spec] + list(spec.get("then") or [])):
+                    if oi:
+                        S.yield_point("between")
                     try:
-                        r = p.run(**kw)
-                        out = ["ok", core.canon(r)]
-                    except sched.SimCancel:
-                        out = ["cancelled"]
-                        if S.trace_prefixes:
-                            sys.settrace(S._global_trace)
+                        p = self.DDLParser(ospec["ddl"], **ospec["flags"])
                     except Exception as e:  # noqa
-                        out = core.outcome_of_exception(e)
-                    finally:
-                        running["n"] -= 1
-                        task.cancel_stmt = None
-                    S.yield_point("run_exit")
-                    outcomes.append((i, j, out))
-                    log.add("ret", task=i, run=j, outcome=out)
+                        p = None
+                        outcomes.append((i, oi, -1, ["ctor-exc"] + core.outcome_of_exception(e)[1:]))
+                    for j, kw in enumerate(ospec["runs"]):
+                        S.yield_point("between")
+                        if p is None:
+                            break
+                        c = ospec.get("cancel") if oi == 0 else None
+                        task.stmt_n = 0
+                        task.cancel_stmt = c["stmt"] if (c and c.get("run") == j) else None
+                        S.yield_point("run_entry")
+                        running["n"] += 1
+                        try:
+                            r = p.run(**kw)
+                            out = ["ok", core.canon(r)]
+                        except sched.SimCancel:
+                            out = ["cancelled"]
+                            if S.trace_prefixes:
+                                sys.settrace(S._global_trace)
+                        except Exception as e:  # noqa
+                            out = core.outcome_of_exception(e)
+                        finally:
+                            running["n"] -= 1
+                            task.cancel_stmt = None
+                        S.yield_point("run_exit")
+                        outcomes.append((i, oi, j, out))
+                        log.add("ret", task=i, obj=oi, run=j, outcome=out)
             return body
 
         seams.HOOKS.point = point
@@ -534,9 +557,11 @@ class ParsersWorld:
                     "digest": log.digest(), "ops_digest": log.ops_digest(), "stats": st["stats"]}
         # oracle: every run() == what that object returns as the only parser in a pristine process
         by_tid = dict((spec.get("tid", n), spec) for n, spec in enumerate(trace["tasks"]))
-        for (i, j, out) in outcomes:
-            spec = by_tid[i]
+        for (i, oi, j, out) in outcomes:
+            spec = ([by_tid[i]] + list(by_tid[i].get("then") or []))[oi]
             st["stats"]["runs"] += 1
+            if oi:
+                st["stats"]["then_objects_runs"] += 1
             if out[0] == "cancelled":
                 continue
             if out[0] == "exc":
@@ -544,13 +569,13 @@ class ParsersWorld:
             if j == -1:
                 expected = self.ref(spec["ddl"], spec["flags"], {})
                 if expected[0] != "ctor-exc" or expected != out:
-                    st["violations"].append({"oracle": "isolation", "task": i, "run": j,
+                    st["violations"].append({"oracle": "isolation", "task": i, "obj": oi, "run": j,
                                              "expected": core.short(expected, 600), "observed": core.short(out, 600)})
                 continue
             expected = self.ref(spec["ddl"], spec["flags"], spec["runs"][j])
             st["stats"]["refs"] += 1
             if out != expected:
-                st["violations"].append({"oracle": "isolation", "task": i, "run": j,
+                st["violations"].append({"oracle": "isolation", "task": i, "obj": oi, "run": j,
                                          "expected": core.short(expected, 600), "observed": core.short(out, 600),
                                          "diff": core.first_diff(expected, out)})
         st["stats"].update({"switches": S.switches, "label_points": S.label_points, "line_points": S.line_points})
@@ -571,6 +596,7 @@ class ParsersWorld:
             tasks.append({"tid": len(tasks), "ddl": it["ddl"], "flags": it["flags"], "runs": [it["run"]], "src": it["src"]})
         for t in tasks:
             t.pop("cancel", None)
+            t.pop("then", None)
             want = 2 if k == 2 else 1
             while len(t["runs"]) < want:
                 t["runs"].append(dict(t["runs"][0]))
